@@ -40,6 +40,7 @@ var vrtScenarios = []vrtScenario{
 	{294204, "v204-burn-minted"},         // 294206: burn what is left of the mint
 	{260210, "plain"},                    // nothing scheduled at 260211, 260212
 	{258910, "holder-snapshot"},          // 258912 = 144*1798 >= 2.0: holder staking snapshot (no rates: skipped)
+	{231618, "v4-fork-crossing"},         // 231620 = first version-checked hard fork: the database starts below it, restarts (the last one at the tip, with the fork block committed) run the hard-fork check for real
 }
 
 func vrtNodeOn(db *sql.DB) *Pegnetd {
@@ -207,6 +208,10 @@ func vrtSpecialsAfter(db *sql.DB, sc vrtScenario, bals []uint64) {
 	}
 }
 
+// vrtStrictStart: the scenario's database began below every version-checked hard fork, so the daemon
+// is started WITHOUT --no-hf: a start that refuses its own database is then a failure of the run
+var vrtStrictStart bool
+
 func vrtResume(db *sql.DB) *Pegnetd {
 	// what a start of the daemon does: NewPegnetd's own body (regenerated from the current
 	// node/node.go on every run, see /verif/hooks.py) on this database - tables + migrations,
@@ -214,7 +219,7 @@ func vrtResume(db *sql.DB) *Pegnetd {
 	// (started with --no-hf: the harness databases begin at a mainnet height without the version
 	// rows of the earlier fork heights; the hard-fork check still runs, its verdict is C19's subject)
 	conf := viper.New()
-	conf.Set(config.DisableHardForkCheck, true)
+	conf.Set(config.DisableHardForkCheck, !vrtStrictStart)
 	d, err := vrtStartDaemon(context.Background(), conf, db)
 	if err != nil {
 		panic("resume: " + err.Error())
@@ -253,6 +258,7 @@ func VerifSyncLoop() {
 	mode := vrt.Param("mode", 0) // 0: crash oracle (C02); 1: fault oracle (C10)
 	sc := vrtScenarios[vrt.Choose("scenario", len(vrtScenarios))]
 	vrt.Cover(sc.name)
+	vrtStrictStart = sc.name == "v4-fork-crossing"
 	blockTime := vrt.Range("blockTime", 1500000000, 1600000000)
 	bals := make([]uint64, 8)
 	for i := range bals {
@@ -356,6 +362,10 @@ func VerifSyncLoop() {
 		vrt.Assert("C02.resume-reaches-the-uninterrupted-ledger",
 			vrtSyncedHeight(db2) == tip && vrt.SameStore(vrt.Snapshot(db2), ref[2], "pn_sync_version"))
 		vrt.Assert("C02.one-version-row-per-height", vrtVersionRows(db2, sc.start, tip))
+		// ---- and a later stop/start at the tip: the daemon starts on its own database again (its
+		// start-up checks accept what it wrote itself) and finds the same ledger
+		d3 := vrtResume(db2)
+		vrt.Assert("C02.daemon-restarts-on-its-own-database", d3.Sync.Synced == tip && vrt.SameStore(vrt.Snapshot(db2), ref[2], "pn_sync_version"))
 		return
 	}
 	vrt.Cover("completed")
